@@ -5,6 +5,7 @@ import MoneroModel.Proofs.GroupInstance
 import MoneroModel.Proofs.EdwardsLawful
 import MoneroModel.Proofs.VarIntSpec
 import MoneroModel.Proofs.ScanWitness
+import MoneroModel.Props.C14
 open Monero Monero.Scan Monero.Extra
 /-! # C07 — output scanning reports exactly the outputs addressed to the wallet
 
@@ -220,35 +221,61 @@ theorem C07_sender_reported (L : Lawful ops) (decP : Bytes → Option P) (p : Pr
   obtain ⟨w, hw, h1, _, h3, h4, h5, _⟩ := C07_complete L decP p v S a b c d base ws h Rm hRm n hn _ (i, j) hr hA hK
   exact ⟨w, hw, h1, h3, h4, h5⟩
 
+/-- **The varint of the four boundary positions, byte for byte.** The encoder AS WRITTEN in Rust (`encVarintImp`: the loop
+`bits = n & 0x7f; n >>= 7; push`, then `split_last` and the continuation bit OR-ed onto all but the last group — not the
+recursive `encVarint`) writes `7f` for 127, `80 01` for 128, `ff 7f` for 16383 and `80 80 01` for 16384: the places where the
+varint of a position grows by one byte. Closed terms, checked by evaluation; they pin the byte order and the continuation bit
+independently of every definition named `leb128`. -/
+theorem C07_position_anchors :
+    (encVarintImp 127) = ([0x7f], 1) ∧ (encVarintImp 128) = ([0x80, 0x01], 2) ∧
+    (encVarintImp 16383) = ([0xff, 0x7f], 2) ∧ (encVarintImp 16384) = ([0x80, 0x80, 0x01], 3) := by decide +kernel
+
 omit [AddCommGroup P] in
-/-- **The position enters as the textbook LEB128 string of its number, injectively.** For EVERY position `i`:
-the shared scalar of the model is the specification's `Hs(enc D ‖ Spec.leb128 i)` and its view tag the first byte of
-`Keccak("view_tag" ‖ enc D ‖ Spec.leb128 i)` — the model's varint writer `encVarint` (the loop of the Rust encoder, C14) IS the
-shortest base-128 encoding for every `i`, not only below 128; and the two hashed messages determine the position: among
-derivations whose encodings have one length (32 bytes for Ed25519, `C07_position_encoding_ed25519`), two messages are equal only
-if the encoded derivations AND the positions are equal. So no two positions share a message, whatever the lengths of their
-varints (127/128, 16383/16384 are not special). This is a fact about the MODEL (the first two conjuncts relate two independently
-written definitions; by definition `rvnScalar ops D i = hsOf ops (enc D ++ encVarint i)`); that the Rust code hashes these bytes is
+/-- **Which bytes stand for the position in the two hashed messages, and that they determine it.** For EVERY position `i`:
+1. the model hashes `enc D ‖ w(i)` for the shared scalar and `"view_tag" ‖ enc D ‖ w(i)` for the view tag, where `w(i)` is the
+   byte string written by the Rust varint encoder AS WRITTEN (`(encVarintImp i).1`, C14) — and these are the specification's
+   `derivationScalar` / `viewTag`;
+2. `w(i)` is the reference string `Spec.leb128 i` (`C14_enc_eq_leb128`: groups / `dropLast` / `getLast` against the recursion), and
+   read as base-128 groups, least significant first, by `Spec.readGroups` (which never looks at `leb128` or at the model) it has
+   value `i` and ends exactly at its last byte (`C14_leb128_value`); with `C14_shortest` it is the unique shortest such string;
+3. the two hashed messages determine the position: among derivations whose encodings have one length (32 bytes for Ed25519,
+   `C07_position_encoding_ed25519`), two messages are equal only if the encoded derivations AND the positions are equal. So no
+   two positions share a message, whatever the lengths of their varints (127/128, 16383/16384: `C07_position_anchors`).
+
+What is and is not content here. `rvnScalar` / `viewTagOf` are DEFINED with the recursive `encVarint`, which is the same
+recursion as `Spec.leb128` up to `a + b = b + a` (`encVarint_eq_leb128`: bookkeeping, NOT evidence), so "model = specification" in
+clause 1 compares two near-identical texts and would survive the same edit made to both. The content is: the tie of that
+recursion to the encoder as written (`encVarintImp_eq` / C14), the independent valuation of clause 2, the byte anchors, and the
+injectivity of clause 3 (`leb128_prefix_free`). That the Rust scanner passes exactly these bytes to Keccak is NOT proved; it is
 tied by the harness scenarios whose owned outputs sit around positions 128 and 16384. -/
 theorem C07_position_encoding (D : P) (i : Nat) :
-    rvnScalar ops D i = Spec.Sender.derivationScalar (specPrims ops) D i ∧
-    viewTagOf ops D i = Spec.Sender.viewTag (specPrims ops) D i ∧
-    encVarint i = Spec.leb128 i ∧
+    (rvnScalar ops D i = hsOf ops (ops.enc D ++ (encVarintImp i).1) ∧
+      rvnScalar ops D i = Spec.Sender.derivationScalar (specPrims ops) D i) ∧
+    (viewTagOf ops D i = (ops.keccak (Gen.viewTagSalt ++ ops.enc D ++ (encVarintImp i).1)).headD 0 ∧
+      viewTagOf ops D i = Spec.Sender.viewTag (specPrims ops) D i) ∧
+    ((encVarintImp i).1 = Spec.leb128 i ∧ (encVarintImp i).2 = (Spec.leb128 i).length ∧
+      ∃ gs, Spec.readGroups (encVarintImp i).1 = some (gs, (encVarintImp i).2) ∧ Spec.valOf gs = i) ∧
     (∀ D' i', (ops.enc D').length = (ops.enc D).length →
-      ops.enc D' ++ encVarint i' = ops.enc D ++ encVarint i → ops.enc D' = ops.enc D ∧ i' = i) ∧
+      ops.enc D' ++ (encVarintImp i').1 = ops.enc D ++ (encVarintImp i).1 → ops.enc D' = ops.enc D ∧ i' = i) ∧
     (∀ D' i', (ops.enc D').length = (ops.enc D).length →
-      Gen.viewTagSalt ++ ops.enc D' ++ encVarint i' = Gen.viewTagSalt ++ ops.enc D ++ encVarint i →
+      Gen.viewTagSalt ++ ops.enc D' ++ (encVarintImp i').1 = Gen.viewTagSalt ++ ops.enc D ++ (encVarintImp i).1 →
         ops.enc D' = ops.enc D ∧ i' = i) := by
+  have himp : ∀ n, encVarint n = (encVarintImp n).1 := fun n => by rw [encVarintImp_eq]
   have key : ∀ D' i', (ops.enc D').length = (ops.enc D).length →
-      ops.enc D' ++ encVarint i' = ops.enc D ++ encVarint i → ops.enc D' = ops.enc D ∧ i' = i := by
+      ops.enc D' ++ (encVarintImp i').1 = ops.enc D ++ (encVarintImp i).1 → ops.enc D' = ops.enc D ∧ i' = i := by
     intro D' i' hl he
     obtain ⟨h1, h2⟩ := List.append_inj he hl
-    rw [encVarint_eq_leb128, encVarint_eq_leb128] at h2
-    exact ⟨h1, VarIntSpec.leb128_prefix_free i' i [] [] (by rw [List.append_nil, List.append_nil]; exact h2)⟩
-  refine ⟨rvnScalar_eq ops D i, viewTagOf_eq ops D i, encVarint_eq_leb128 i, key, ?_⟩
-  intro D' i' hl he
-  rw [List.append_assoc, List.append_assoc] at he
-  exact key D' i' hl (List.append_cancel_left he)
+    rw [(C14.C14_enc_eq_leb128 i').1, (C14.C14_enc_eq_leb128 i).1] at h2
+    exact ⟨h1, (C14.C14_leb128_injective i' i [] [] (by rw [List.append_nil, List.append_nil]; exact h2)).1⟩
+  refine ⟨⟨?_, rvnScalar_eq ops D i⟩, ⟨?_, viewTagOf_eq ops D i⟩, ⟨(C14.C14_enc_eq_leb128 i).1, (C14.C14_enc_eq_leb128 i).2, ?_⟩, key, ?_⟩
+  · rw [← himp]; rfl
+  · rw [← himp]; rfl
+  · obtain ⟨gs, h1, h2⟩ := C14.C14_leb128_value i []
+    rw [List.append_nil] at h1
+    exact ⟨gs, by rw [(C14.C14_enc_eq_leb128 i).1, (C14.C14_enc_eq_leb128 i).2]; exact h1, h2⟩
+  · intro D' i' hl he
+    rw [List.append_assoc, List.append_assoc] at he
+    exact key D' i' hl (List.append_cancel_left he)
 
 omit [AddCommGroup P] in
 /-- (definitional — argument plumbing of the model) **The three entry points are one function.** `Transaction::check_outputs` is `TransactionPrefix::check_outputs` on the
@@ -614,10 +641,12 @@ example (X : EdPoint) : WFSeq (validKey edOps) [.txPub (edOps.enc X)] := by
   exact ⟨edOps_enc_length X, by unfold validKey; rw [edOps_lawful.dec_enc]; rfl⟩
 
 /-- `C07_position_encoding` for Ed25519: encodings have 32 bytes, so the length hypothesis is gone — the message hashed for the
-shared scalar (and for the view tag) determines the encoded derivation and the position -/
+shared scalar (and for the view tag), with the position written by the encoder as written (`encVarintImp`), determines the
+derivation and the position -/
 theorem C07_position_encoding_ed25519 (D D' : EdPoint) (i i' : Nat) :
-    (edOps.enc D' ++ encVarint i' = edOps.enc D ++ encVarint i → D' = D ∧ i' = i) ∧
-    (Gen.viewTagSalt ++ edOps.enc D' ++ encVarint i' = Gen.viewTagSalt ++ edOps.enc D ++ encVarint i → D' = D ∧ i' = i) := by
+    (edOps.enc D' ++ (encVarintImp i').1 = edOps.enc D ++ (encVarintImp i).1 → D' = D ∧ i' = i) ∧
+    (Gen.viewTagSalt ++ edOps.enc D' ++ (encVarintImp i').1 = Gen.viewTagSalt ++ edOps.enc D ++ (encVarintImp i).1 →
+      D' = D ∧ i' = i) := by
   obtain ⟨_, _, _, h1, h2⟩ := C07_position_encoding (ops := edOps) D i
   have hl : (edOps.enc D').length = (edOps.enc D).length := by rw [edOps_enc_length, edOps_enc_length]
   exact ⟨fun he => ⟨edOps_enc_inj (h1 D' i' hl he).1, (h1 D' i' hl he).2⟩,
@@ -626,25 +655,40 @@ theorem C07_position_encoding_ed25519 (D D' : EdPoint) (i i' : Nat) :
 /-- **A joint witness: an `Ok` scan on Ed25519 that reports an output.** For every wallet `(v, S)` and sender secret `r`, the
 version-2 transaction without inputs whose extra field is the transaction key `r·G` alone and whose single output (clear amount
 5) is the sender's one-time key for the primary address scans — with ranges `0..1 × 0..1`, no base — to `Ok` and reports
-position 0 with that key and index `(0,0)`. All hypotheses of `C07_sender_tx_reported(_clear)` hold together. -/
+position 0 with index `(0,0)`, with the sender's transaction key as `tx_pubkey`, with that very output, and with the clear amount
+`Some(5)`. All hypotheses of `C07_sender_tx_reported(_clear)` hold together. This witness covers the main-key / primary-address /
+untagged / `T = 0` branch only; the additional-key disjunct of `hK` (which needs `¬ AddressedVia … Rm`, a hash statement for
+Ed25519) has no Lean witness — that branch is exercised by the harness only (per-output-key scenarios). -/
 theorem C07_witness_ed25519 (decP : Bytes → Option EdPoint) (v r : Nat) (S : EdPoint) :
     ∃ ws, checkOutputsPrefix edOps decP
         ⟨2, 0, [], [⟨5, .key (edOps.enc (Spec.Sender.sendKey (specPrims edOps) r (Spec.Sender.destAt (specPrims edOps) v S 0 0) 0))⟩],
           ([SubField.txPub (edOps.enc (Spec.Sender.txKey (specPrims edOps) r (Spec.Sender.destAt (specPrims edOps) v S 0 0) + 0))].map encSub).flatten⟩
         v S 0 1 0 1 none = .ok ws ∧
-      ∃ w ∈ ws, w.index = 0 ∧ w.sub = (0, 0) := by
+      ∃ w ∈ ws, w.index = 0 ∧ w.sub = (0, 0) ∧
+        w.txKey = edOps.enc (Spec.Sender.txKey (specPrims edOps) r (Spec.Sender.destAt (specPrims edOps) v S 0 0) + 0) ∧
+        w.out = ⟨5, .key (edOps.enc (Spec.Sender.sendKey (specPrims edOps) r (Spec.Sender.destAt (specPrims edOps) v S 0 0) 0))⟩ ∧
+        w.amount = some 5 := by
   have hr : InRange 0 1 0 1 ((0 : Nat), (0 : Nat)) := ⟨Nat.le_refl _, Nat.one_pos, Nat.le_refl _, Nat.one_pos⟩
-  obtain ⟨ws, hws, w, hw, h1, _, h3, _⟩ := C07_sender_tx_reported_clear edOps_lawful decP
+  obtain ⟨ws, hws, w, hw, h1, h2, h3, _⟩ := C07_sender_tx_reported_clear edOps_lawful decP
     ⟨2, 0, [], [⟨5, .key (edOps.enc (Spec.Sender.sendKey (specPrims edOps) r (Spec.Sender.destAt (specPrims edOps) v S 0 0) 0))⟩],
       ([SubField.txPub (edOps.enc (Spec.Sender.txKey (specPrims edOps) r (Spec.Sender.destAt (specPrims edOps) v S 0 0) + 0))].map encSub).flatten⟩
     v S 0 1 0 1 none (Or.inl rfl) 0 Nat.one_pos 0 0 r 0 (smul_zero 8) hr []
     (by show (edOps.enc _).length = 32 ∧ validKey edOps (edOps.enc _) = true
         exact ⟨edOps_enc_length _, by unfold validKey; rw [edOps_lawful.dec_enc]; rfl⟩)
     rfl (Or.inl rfl)
-  refine ⟨ws, hws, w, hw, h1, ?_⟩
-  unfold InRange at h3
-  have e1 : w.sub.1 = 0 := by omega
-  have e2 : w.sub.2 = 0 := by omega
-  exact Prod.ext e1 e2
+  obtain ⟨Rm, _, hgo⟩ := prefix_ok edOps decP _ v S 0 1 0 1 none ws hws
+  obtain ⟨j, hj, _, hidx, hout, hop⟩ := go_ok_sound edOps decP _ none Rm _ 0 _ ws hgo w hw
+  rw [openStep_clear edOps decP none _ _ _ (Or.inl rfl)] at hop
+  have hw' : w.opening = none := (Except.ok.inj hop).symm
+  rw [Nat.zero_add] at hidx
+  have hj0 : j = 0 := by rw [← hidx]; exact h1
+  subst hj0
+  have hout' : w.out = ⟨5, .key (edOps.enc (Spec.Sender.sendKey (specPrims edOps) r (Spec.Sender.destAt (specPrims edOps) v S 0 0) 0))⟩ := hout
+  refine ⟨ws, hws, w, hw, h1, ?_, h2, hout', ?_⟩
+  · unfold InRange at h3
+    have e1 : w.sub.1 = 0 := by omega
+    have e2 : w.sub.2 = 0 := by omega
+    exact Prod.ext e1 e2
+  · unfold Owned.amount; rw [hw', hout']; rfl
 end Ed25519
 end C07
